@@ -347,6 +347,11 @@ func (p *HookProgram) eval(sim *vs.Server, parent, observed map[string]any, fina
 			map[string]any{"type": "Ready", "status": "True"},
 			map[string]any{"type": "Updated", "status": "Unknown", "reason": "HookSaysSo"},
 		}}
+	case 5:
+		// the hook's own Updated condition comes first (and alone)
+		resp["status"] = map[string]any{"conditions": []any{
+			map[string]any{"type": "Updated", "status": "Unknown", "reason": "HookSaysSo"},
+		}}
 	default:
 		resp["status"] = map[string]any{"observedGeneration": int64(999), "observed": int64(nObs)}
 	}
